@@ -1,1 +1,22 @@
 import Martian.Props.C17
+open Martian.Props.C17
+#print axioms heap_refines_spec
+#print axioms ring_invariant_reachable
+#print axioms never_panics_nor_diverges
+#print axioms request_appended_if_fresh
+#print axioms duplicate_rejected_log_undisturbed
+#print axioms response_attached_to_own_id
+#print axioms orphan_response_ignored
+#print axioms export_is_the_log
+#print axioms export_and_reset_partitions
+#print axioms reset_empties
+#print axioms export_lists_log
+#print axioms export_and_reset_after
+#print axioms exports_in_arrival_order
+#print axioms returned_at_most_once
+#print axioms returned_are_completed
+#print axioms completed_returned_by_next_export_and_reset
+#print axioms pending_kept_by_export_and_reset
+#print axioms each_response_attached_to_own_request
+#print axioms log_well_formed
+#print axioms response_after_reset_ignored
